@@ -17,26 +17,33 @@ pub assume_specification<T: Default>[ core::mem::take::<T> ](dest: &mut T) -> (r
 pub assume_specification<'a>[ <String as PartialEq<&'a str>>::eq ](a: &String, b: &&str) -> (r: bool) ensures r == (a@ == (*b)@);
 pub assume_specification[ <String as PartialEq<str>>::eq ](a: &String, b: &str) -> (r: bool) ensures r == (a@ == b@);
 
+pub assume_specification<T: Clone>[ <[T]>::to_vec ](s: &[T]) -> (r: Vec<T>)
+    ensures r@.len() == s@.len();
+
 /// R12: by-value iteration over a Vec, expressed as has_next / next_val
 /// (`for x in v` == `let mut it = v.into_iter(); while let Some(x) = it.next()`).
 #[verifier::external_body]
 #[verifier::reject_recursive_types(T)]
 pub struct VerifIntoIter<T> { _p: core::marker::PhantomData<T> }
 impl<T> VerifIntoIter<T> {
+    /// elements still to come / already yielded / the whole vector: all() == done() + rest() always
     pub uninterp spec fn rest(&self) -> Seq<T>;
+    pub uninterp spec fn done(&self) -> Seq<T>;
+    pub open spec fn all(&self) -> Seq<T> { self.done() + self.rest() }
     #[verifier::external_body]
     pub fn has_next(&self) -> (b: bool) ensures b == (self.rest().len() > 0) { unimplemented!() }
     #[verifier::external_body]
     pub fn next_val(&mut self) -> (x: T)
         requires old(self).rest().len() > 0
-        ensures x == old(self).rest()[0], final(self).rest() == old(self).rest().skip(1)
+        ensures x == old(self).rest()[0], final(self).rest() == old(self).rest().skip(1), final(self).done() == old(self).done().push(x),
+            final(self).all() == old(self).all()
     { unimplemented!() }
 }
 #[verifier::external_body]
-pub fn verif_into_iter<T>(v: Vec<T>) -> (r: VerifIntoIter<T>) ensures r.rest() == v@ { unimplemented!() }
+pub fn verif_into_iter<T>(v: Vec<T>) -> (r: VerifIntoIter<T>) ensures r.rest() == v@, r.done() == Seq::<T>::empty(), r.all() == v@ { unimplemented!() }
 #[verifier::external_body]
 pub fn verif_into_iter_skip<T>(v: Vec<T>, k: usize) -> (r: VerifIntoIter<T>)
-    ensures r.rest() == (if k <= v@.len() { v@.skip(k as int) } else { Seq::<T>::empty() })
+    ensures r.rest() == (if k <= v@.len() { v@.skip(k as int) } else { Seq::<T>::empty() }), r.done() == Seq::<T>::empty()
 { unimplemented!() }
 
 } // verus!
